@@ -5,6 +5,8 @@ from harness import impl_validate as V
 
 ID = "C19"
 LEAN_MODULE = "BioCantor.Props.C19"
+EXTRA_LEAN_MODULES = ["BioCantor.Props.C19Ties"]   # regenerated scan_windows validation = Model.Validate.scanWinCount
+GEN_NEEDS = ["Location_scan_windows_checks", "Strand_", "CDSFrame_from_int", "CDSPhase_from_int", "codonAlphabet"]
 DESIGN_REF = "4/C19"
 DRIVER = "drivers/C19.lean"
 SPEC_DRIVER = "drivers/SpecC19.lean"
